@@ -51,6 +51,14 @@ Definition nested_generator : generator_cfg := {| ug_single_arg := true; ug_nest
 (** `return updated_node` and the generator built from the updated comprehension *)
 Definition nested_updated_generator : generator_cfg := {| ug_single_arg := true; ug_nested := true; ug_updated_parts := true |}.
 
+(** fix_hasattr_call.on_result_found *)
+Record hasattr_cfg := {
+  ha_two_args : bool      (* true: only hasattr calls with exactly two arguments are rewritten (repaired);
+                             false: whatever semgrep's `hasattr(..., "__call__")` matched, keeping the first argument (pinned) *)
+}.
+Definition pinned_hasattr : hasattr_cfg := {| ha_two_args := false |}.
+Definition repaired_hasattr : hasattr_cfg := {| ha_two_args := true |}.
+
 (** str_concat_in_seq_literal._process_elements *)
 Record str_concat_cfg := {
   sc_updated : bool       (* true: the elements of the UPDATED node are processed (rewrites of nested displays are kept; repaired);
